@@ -1,6 +1,6 @@
 #!/bin/bash
 # run every claimed check (quick tier unless VERIF_TIER is set) on the current tree; summary at the end
-cd /verif
+cd "$(dirname "$(readlink -f "$0")")/.." || exit 2   # the tree this script lives in (a `vp run` snapshot stays inside its snapshot)
 ids=$(python3 -c "import json;print(' '.join(c['property_id'] for c in json.load(open('MANIFEST.json'))['checks']))")
 fail=0
 for p in ${@:-$ids}; do
